@@ -12,7 +12,9 @@ def hexDigit (c : Char) : Option Nat :=
   else if 'A' ≤ c ∧ c ≤ 'F' then some (c.toNat - 'A'.toNat + 10)
   else none
 
-def parseHex (s : String) : Option Nat :=
+def parseHex (s0 : String) : Option Nat :=
+  -- `hex~len`: the harness stores the value in `len` words (leading zero words); the value is what the model sees
+  let s := (s0.splitOn "~").headD ""
   if s.isEmpty then none else
   s.foldl (fun acc c => match acc, hexDigit c with
     | some a, some d => some (a * 16 + d)
